@@ -27,14 +27,14 @@ ASSUMPTIONS = [
 ANCHORS = ["dagrt.codegen.fortran:CodeGenerator.__call__", "dagrt.codegen.fortran:CodeGenerator.lower_inst",
            "dagrt.codegen.fortran:CodeGenerator.emit_inst_Assign", "dagrt.codegen.transform:expand_IfThenElse",
            "dagrt.codegen.expressions:FortranExpressionMapper.map_constant"]
-MIN_NONTRIVIAL = {"quick": 120, "thorough": 1800}
+MIN_NONTRIVIAL = {"quick": 120, "thorough": 3779}
 REQUIRED_COUNTERS = {"quick": ["programs_compiled", "run_calls_compared", "values_compared"],
                      "thorough": ["programs_compiled", "run_calls_compared", "values_compared"]}
 SHARD_TIMEOUT = {"quick": 900, "thorough": 3400}
 
 
 def plan(tier, seed):
-    per = 16 if tier == "quick" else 220
+    per = 16 if tier == "quick" else 660
     return [{"seed": f"C03:{seed}:{k}", "count": per} for k in range(16)]
 
 
